@@ -79,9 +79,15 @@ def run(spec: Dict[str, Any]) -> Dict[str, Any]:
             else:
                 agents[name] = {"action": "-", "params": "-", "status": "-", "data": "-", "reward": "-"}
         out[k]["agents"] = list(env.game.agents)
+        # the action mask the environment hands out at this point (asked for after every step and every reset, as a learner
+        # that keeps "the next mask" does) is part of what an episode shows
+        try:
+            mk = _h([int(bool(x)) for x in env.action_masks()])[:6]
+        except Exception as e:  # noqa
+            mk = f"raised:{type(e).__name__}"
         out[k]["steps"].append({"kind": kind, "obs": _h(_plain(obs)), "reward": _h(round(float(reward), 9)),
                                 "flags": f"{bool(term)}{bool(trunc)}", "agents": agents,
-                                "state": project.digest(env.game.simulation, project.Canon())[:12]})
+                                "state": project.digest(env.game.simulation, project.Canon())[:12] + ":" + mk})
 
     for op in spec["ops"]:
         kind, k = op[0], op[1]
